@@ -11,6 +11,8 @@
 (*   name     block name := unknown ASCII | non-UTF-8 | lower case         *)
 (*   gates    number_of_data_moment_gates := 65535                         *)
 (*   word     data_word_size := 0 | 7 | 9 | 255                            *)
+(*   gates+word  gates in {65535, 40000, 4096} together with word 16 | 255 *)
+(*            (the product exceeds 16 bits)                                 *)
 (*   cut      truncation at every structural boundary and one byte around  *)
 (*   size     (driver-side class, header level) message-header size field *)
 (*            0 | 1 | 0x7FFF | 0x8000 | 0xFFFF x segment count/number      *)
@@ -48,6 +50,8 @@ FaultsOf(mm) ==
             : j \in 1..n, t \in 1..3}
    \cup {<<"gates", j, SetBytes(bs, PtrValue(mm, j) + OffsetOf(GenL, "number_of_data_moment_gates"), <<255, 255>>)>> : j \in {x \in 1..n : mm.blocks[mm.ptrs[x]].p \in Moments}}
    \cup {<<"word", j * 1000 + w, SetBytes(bs, PtrValue(mm, j) + OffsetOf(GenL, "data_word_size"), <<w>>)>> : j \in {x \in 1..n : mm.blocks[mm.ptrs[x]].p \in Moments}, w \in {0, 7, 9, 255}}
+   \cup {<<"gates+word", j * 1000 + w, SetBytes(SetBytes(bs, PtrValue(mm, j) + OffsetOf(GenL, "number_of_data_moment_gates"), g), PtrValue(mm, j) + OffsetOf(GenL, "data_word_size"), <<w>>)>>
+            : j \in {x \in 1..n : mm.blocks[mm.ptrs[x]].p \in Moments}, w \in {16, 255}, g \in {<<255, 255>>, <<156, 64>>, <<16, 0>>}}
    \cup {<<"cut", c, SubSeq(bs, 1, c)>> : c \in ({0, 1, 31, 32, 33, PtrOff(n) + 3, PtrOff(n) + 4, L - 1} \cup UNION {{PtrValue(mm, j), PtrValue(mm, j) + 3, PtrValue(mm, j) + 4, PtrValue(mm, j) + 27, PtrValue(mm, j) + 28} : j \in 1..n}) \cap (0..L)}
 
 (* a second fault applied to already faulty bytes: counts, gate/word extremes and cuts compose *)
